@@ -124,10 +124,112 @@ def rendered_kinds(kind, toks):
     return out
 
 
+# ---- window definitions: OVER ( [PARTITION BY ..] [ORDER BY ..] [frame] ) -----------------------------------------
+class WindowError(Exception):
+    pass
+
+
+def window_groups(tl):
+    """token lists of every inline window definition OVER ( ... ), at any depth"""
+    out, n = [], len(tl)
+    for i in range(n - 1):
+        if tl[i] == ("W", "OVER") and tl[i + 1] == ("C", "("):
+            d, j = 0, i + 1
+            while j < n:
+                if tl[j] == ("C", "("):
+                    d += 1
+                elif tl[j] == ("C", ")"):
+                    d -= 1
+                    if d == 0:
+                        break
+                j += 1
+            if j >= n:
+                raise WindowError("unbalanced parentheses after OVER")
+            out.append(tl[i + 2:j])
+    return out
+
+
+def read_bound(ts, i):
+    if i + 1 < len(ts) and ts[i] == ("W", "UNBOUNDED") and ts[i + 1] in (("W", "PRECEDING"), ("W", "FOLLOWING")):
+        return ("up" if ts[i + 1][1] == "PRECEDING" else "uf"), i + 2
+    if i + 1 < len(ts) and ts[i] == ("W", "CURRENT") and ts[i + 1] == ("W", "ROW"):
+        return "cur", i + 2
+    if i + 1 < len(ts) and ts[i][0] != "W" and ts[i + 1] in (("W", "PRECEDING"), ("W", "FOLLOWING")):
+        return ("pre" if ts[i + 1][1] == "PRECEDING" else "fol"), i + 2
+    raise WindowError("not a frame bound at %r" % (ts[i:i + 3],))
+
+
+def read_window_spec(ts):
+    """(has_partition, has_order, frame signature or None) of one window definition; WindowError if malformed"""
+    d, marks = 0, []
+    for i, t in enumerate(ts):
+        if t == ("C", "("):
+            d += 1
+        elif t == ("C", ")"):
+            d -= 1
+        elif d == 0 and t[0] == "W":
+            nxt = ts[i + 1] if i + 1 < len(ts) else None
+            if t[1] == "PARTITION":
+                if nxt != ("W", "BY"):
+                    raise WindowError("PARTITION without BY")
+                marks.append(("P", i))
+            elif t[1] == "ORDER" and nxt == ("W", "BY"):
+                marks.append(("O", i))
+            elif t[1] in ("ROWS", "RANGE", "GROUPS"):
+                marks.append(("F", i))
+    kinds = [k for k, _ in marks]
+    if kinds != [k for k in "POF" if k in kinds] or len(set(kinds)) != len(kinds):
+        raise WindowError("parts of the window definition out of order or repeated: %s" % kinds)
+    if ts and (not marks or marks[0][1] != 0):
+        raise WindowError("window definition starts with %r" % (ts[:3],))
+    ends = [i for _, i in marks[1:]] + [len(ts)]
+    for (k, i), e in zip(marks, ends):
+        if k in "PO" and e - i <= 2:
+            raise WindowError("empty %s list" % ("PARTITION BY" if k == "P" else "ORDER BY"))
+    frame = None
+    if "F" in kinds:
+        i = dict(marks)["F"]
+        unit = ts[i][1].lower()
+        j = i + 1
+        if j < len(ts) and ts[j] == ("W", "BETWEEN"):
+            b1, j = read_bound(ts, j + 1)
+            if j >= len(ts) or ts[j] != ("W", "AND"):
+                raise WindowError("BETWEEN bound without AND")
+            b2, j = read_bound(ts, j + 1)
+            frame = (unit, b1, b2)
+        else:
+            b1, j = read_bound(ts, j)
+            frame = (unit, b1, None)
+        if j != len(ts):
+            raise WindowError("tokens after the frame: %r" % (ts[j:j + 3],))
+    return ("P" in kinds, "O" in kinds, frame)
+
+
+def given_windows(node, out):
+    """(has_partition, has_order, frame signature) of every inline window the program gives (exprwin / exprwinas)"""
+    if not isinstance(node, list) or not node:
+        return
+    if node[0] in ("exprwin", "exprwinas") and len(node) > 2 and isinstance(node[2], list) and node[2][:1] == ["window"]:
+        w = node[2][1:]
+        fr = [x for x in w if isinstance(x, list) and x[0] == "frame"]
+        sig = None
+        if fr:
+            bk = lambda x: x if isinstance(x, str) else x[0]
+            f = fr[-1]
+            sig = (f[1], bk(f[2]), bk(f[3]) if len(f) > 3 else None)
+        out.append((any(isinstance(x, list) and x[0] == "partition" for x in w),
+                    any(isinstance(x, list) and x[0] == "orderby" for x in w), sig))
+    for c in node[1:]:
+        given_windows(c, out)
+
+
 FOREIGN = {
     "my": [r"\$\d", r"\bRETURNING\b", r"\bILIKE\b", r"DISTINCT ON", r"NULLS (FIRST|LAST)", r"TABLESAMPLE", r"ON CONFLICT", r"\bSEARCH\b.*\bFIRST BY\b", r"MATERIALIZED"],
     "pg": [r"ON DUPLICATE KEY", r"\bROW\(", r"(USE|IGNORE|FORCE) INDEX", r"IS NULL (ASC|DESC),", r"DISTINCTROW"],
 }
+
+
+WINSTAT = [0]
 
 
 def gen_cases(ctx):
@@ -206,6 +308,22 @@ def batch_oracle(ctx, lines, impl):
                         cnt += 1
                 if cnt != given and verdicts[i] is None:
                     verdicts[i] = "%s given %d time(s) in the WITH clause but rendered %d time(s) on %s" % (opt, given, cnt, b)
+        # inline window definitions: each one read from the text is well-formed and is one the program gave
+        # (presence of PARTITION BY / ORDER BY, frame unit and bounds); a window may be absent (clause not
+        # rendered on this dialect), never different
+        if verdicts[i] is None:
+            try:
+                got_w = [read_window_spec(g) for g in window_groups(tl)]
+                giv_w = []
+                given_windows(prog, giv_w)
+                for w in got_w:
+                    # membership, not multiplicity: MySQL's NULLS FIRST/LAST emulation writes a sort key twice
+                    if w not in giv_w:
+                        verdicts[i] = "a window definition reads as %r, the program gives %r" % (w, giv_w)
+                        break
+                WINSTAT[0] += len(got_w)
+            except WindowError as e:
+                verdicts[i] = "a window definition is not well-formed on %s: %s" % (b, e)
         # dialect-specific constructs only in their own dialect (keywords outside literals/identifiers)
         text = " ".join(t[1] for t in tl if t[0] in "WOC")
         text = text.replace("( ", "(")
@@ -214,6 +332,7 @@ def batch_oracle(ctx, lines, impl):
                 verdicts[i] = "a construct of another dialect appears in the %s rendering: /%s/" % (b, pat)
                 break
     ctx.cov["oracle_statements_checked"] = checked
+    ctx.cov["oracle_window_definitions_read"] = WINSTAT[0]
     return verdicts
 
 
